@@ -122,8 +122,9 @@ protected:
             if (segments.back() == sentinel)
                 --n_segments;
             else {
-                if (segments.back()(sentinel - 1) < last_n)
-                    segments.emplace_back(*std::prev(last) + 1, 0, last_n); // Ensure keys > last are mapped to last_n
+                // Ensure keys > last are mapped to last_n (there are no such keys when last + 1 is the sentinel itself)
+                if (segments.back()(sentinel - 1) < last_n && K(*std::prev(last) + 1) != sentinel)
+                    segments.emplace_back(*std::prev(last) + 1, 0, last_n);
                 segments.emplace_back(sentinel, 0, last_n);
             }
             return n_segments;
